@@ -146,6 +146,8 @@ module N :
 
 val nth : nat -> 'a1 list -> 'a1 -> 'a1
 
+val nth_error : 'a1 list -> nat -> 'a1 option
+
 val rev : 'a1 list -> 'a1 list
 
 val map : ('a1 -> 'a2) -> 'a1 list -> 'a2 list
@@ -646,3 +648,71 @@ val run_file : str -> str
 val pure_line : str list -> str
 
 val pure_file : str -> str
+
+type cfg = { max_m : n; max_b : n }
+
+type wpc =
+| W0
+| W1 of n
+| WL
+| WS of n
+| WM of n * n
+| WP of n * n * n option
+| WParked of n * n * n option
+| WDone of n * n
+
+type mkind =
+| Inc
+| Dec
+
+type mpc =
+| M0
+| M1
+| M2
+| MDone
+
+type thread =
+| TW of wpc
+| TM of mkind * n * n * mpc
+
+type state = { msgs : n; bytes : n; calls : n; threads : thread list }
+
+val upd : nat -> 'a1 -> 'a1 list -> 'a1 list
+
+val apply : mkind -> n -> n -> n
+
+val wstep : cfg -> n -> n -> n -> wpc -> wpc option
+
+val wake : thread -> thread
+
+val step : cfg -> state -> nat -> state option
+
+val fc_wname : wpc -> str
+
+val fc_mname : mpc -> str
+
+val fc_tname : thread -> str
+
+val fc_dash : str
+
+val fc_bad : str list
+
+val fc_step : cfg -> state -> n -> state option
+
+val fc_sched : cfg -> state -> n list -> str list * state
+
+val fc_final : state -> str
+
+val fc_p_thread : str list -> thread option
+
+val fc_p_nats : str list -> n list option
+
+val fc_p_body : str list list -> thread list -> (thread list * n list) option
+
+val fc_p_cfg : str list -> ((cfg * n) * n) option
+
+val fc_run_case : str list list -> str list
+
+val fc_case : (str * str list) -> str list
+
+val fc_file : str -> str
